@@ -38,6 +38,28 @@ Theorem C12_blocks_until_stored_or_cancelled :
   end.
 Proof. exact returns_only_when_due. Qed.
 
+(** ErrNotFound is returned only if, at an instant between the call's first step and its return,
+    Height() had reached the requested height and the header was absent -- namely at the instant of
+    the call's final lookup. In particular a lookup that missed BEFORE Height() reached n is never
+    what the call answers with: it looks again. *)
+Theorem C12_notfound_only_when_absent :
+  forall hd tl m ns q sched i r, wf_init hd tl m ->
+  nth_error (st_readers (run sched (init hd tl m ns q))) i = Some r -> r_pc r = RDone RNotFound ->
+  exists k, (first_own sched i <= k < length sched)%nat /\
+            let sk := run (firstn k sched) (init hd tl m ns q) in
+            r_n r <= st_hsh sk /\ lookup sk (r_n r) = None /\
+            (exists rk, nth_error (st_readers sk) i = Some rk /\ r_pc rk = RLookup2).
+Proof. exact notfound_only_when_absent. Qed.
+
+(** ... hence: a height that is stored at an instant at which the call has not returned yet is
+    never answered with ErrNotFound, however the append interleaved with the call's lookups. *)
+Theorem C12_stored_before_return_is_not_notfound :
+  forall hd tl m ns q sched1 sched2 i r, wf_init hd tl m ->
+  let s := run sched1 (init hd tl m ns q) in
+  nth_error (st_readers s) i = Some r -> (forall x, r_pc r <> RDone x) -> lookup s (r_n r) <> None ->
+  exists r', nth_error (st_readers (run sched2 s)) i = Some r' /\ r_pc r' <> RDone RNotFound.
+Proof. exact stored_before_return. Qed.
+
 (** No lost wake-up, at full strength: in every reachable state in which every flush has finished,
     no call for a height that was handed to Append -- adjacent to Head or not, appended before,
     during or after the call's lookups, in any interleaving -- is blocked in WaitFor's select. *)
@@ -159,6 +181,8 @@ Proof. vm_compute. auto. Qed.
 
 Print Assumptions C12_result_is_the_header.
 Print Assumptions C12_blocks_until_stored_or_cancelled.
+Print Assumptions C12_notfound_only_when_absent.
+Print Assumptions C12_stored_before_return_is_not_notfound.
 Print Assumptions C12_no_lost_wakeup.
 Print Assumptions C12_appended_returns.
 Print Assumptions C12_flushed_is_notified.
